@@ -132,7 +132,7 @@ class Session:
                 forest, safe = g
                 self.gens.append(forest_generator("E2EGen%d%s" % (i, "Safe" if safe else ""), hw.vendor, forest, safe))
         self.loader = _Loader(d, self.gens)
-        self.dir = tempfile.mkdtemp(prefix="verif-e2e-")
+        self.dir = tempfile.mkdtemp(prefix="verif-e2e-", dir=os.environ.get("VERIF_SCRATCH") or None)
         fmt = env.vendor_obj(hw.vendor).make_formatter()
         text = fmt.join(env.to_odict(old_forest))
         with open(os.path.join(self.dir, hostname + ".cfg"), "w", encoding="utf-8") as fh:
@@ -239,7 +239,7 @@ class Fabric:
     def __init__(self, devices):
         """devices: [{"hostname", "model", "old": forest, "gens": [(forest, safe)], "filter_acl": text or None, "tags": [...]}]"""
         from annet.annlib.netdev.views.hardware import HardwareView
-        self.dir = tempfile.mkdtemp(prefix="verif-e2e-")
+        self.dir = tempfile.mkdtemp(prefix="verif-e2e-", dir=os.environ.get("VERIF_SCRATCH") or None)
         self.devs, self.gens = {}, {}
         for n, spec in enumerate(devices, 1):
             hw = HardwareView(spec["model"], None)
